@@ -85,3 +85,103 @@ Proof.
   intros u j sc cr s c s' r.
   apply (Inv_compare pstate ccmd cexec cunexec (lvl_ge u j) (lvl_ge_apply u j) (lvl_ge_unapply u j) sc cr (fun s0 t H => lvl_ge_tip u j s0 t _ H)).
 Qed.
+
+(** ** a chain applied alone becomes fully valid *)
+Lemma is_act_find : forall s j, is_act (cores s) j -> exists b, bfind (blocks _ _ s) j = Some b /\ b_act _ b = true.
+Proof.
+  intros s j (e & He & Ha). destruct (core_find _ _ _ He) as (b & Fb & Cb). exists b. split; [exact Fb|].
+  rewrite <- Cb in Ha. exact Ha.
+Qed.
+
+Lemma ap_full : forall path s from s' cur,
+    winv s -> is_act (cores s) cur -> lvl_ge L_FULL cur s ->
+    Z.of_N (napp _ _ s) = hgt (cores s) cur - hgt (cores s) (root _ _ s) + 1 ->
+    linked (cores s) cur path ->
+    apply_path pstate ccmd cexec cunexec s from path = Ok (s', true) ->
+    forall x, In x path -> lvl_ge L_FULL x s'.
+Proof.
+  induction path as [|x r IH]; intros s from s' cur WI Ha Hl Hn L H y Hy; [destruct Hy|]. cbn in H.
+  dbind H. destruct a as [s1 ok1]. destruct ok1.
+  2:{ destruct (bfind (blocks pstate ccmd s1) x); [|discriminate]. dbind H. discriminate. }
+  destruct L as [(e & He & Hp) Lr]. pose proof WI as (W & C).
+  destruct (core_find _ _ _ He) as (b & Fb & Cb).
+  assert (Hpb : b_par ccmd b = cur) by (rewrite <- Hp, <- Cb; reflexivity).
+  destruct (is_act_find _ _ Ha) as (pb & Fpb & Apb). rewrite <- Hpb in Fpb.
+  assert (Hxr : x <> root _ _ s).
+  { intro. subst x. unfold c_applyBlock, applyBlock in E. rewrite Fb, N.eqb_refl in E. discriminate. }
+  pose proof (wf_parent_height _ _ _ W He Hxr) as Hh. rewrite Hp in Hh.
+  destruct (applyBlock_level _ _ _ _ _ E Fb Fpb) as (b' & Fb' & Ab' & Lb').
+  assert (Hfull : valid_upto ccmd pb L_FULL && Z.eqb (b_h ccmd b) (root_h pstate ccmd s + Z.of_N (napp pstate ccmd s)) = true).
+  { apply andb_true_iff. split.
+    - unfold valid_upto. apply andb_true_iff. split.
+      + destruct C as (_ & _ & _ & _ & C3 & _). rewrite Hpb in Fpb. destruct (C3 _ _ Fpb Apb) as [Hv _]. rewrite Hv. reflexivity.
+      + destruct Hl as (pb2 & Fpb2 & Hl2). rewrite Hpb in Fpb. rewrite Fpb in Fpb2. inversion Fpb2; subst pb2. apply N.leb_le. exact Hl2.
+    - apply Z.eqb_eq. rewrite root_h_hgt. assert (hgt (cores s) x = b_h ccmd b) by (unfold hgt; rewrite He, <- Cb; reflexivity). lia. }
+  cbv zeta in Lb'. rewrite Hfull in Lb'.
+  assert (Hx1 : lvl_ge L_FULL x s1).
+  { exists b'. split; [exact Fb'|]. rewrite Lb'. destruct (N.ltb (b_lvl ccmd b) L_FULL) eqn:E1; [lia|apply N.ltb_ge in E1; exact E1]. }
+  destruct (apply_ok_core _ _ _ W E) as (W1 & C1 & N1 & R1 & T1 & _).
+  assert (S1 : same_static (cores s) (cores s1)) by (rewrite C1; apply same_static_cupd).
+  pose proof (fun j => hgt_static _ _ j S1) as HS.
+  destruct Hy as [<-|Hy].
+  - eapply lvl_ge_apply_path; eassumption.
+  - eapply (IH s1 from s' x); [eapply winv_apply; eassumption| | | |apply (linked_static _ _ _ _ S1 Lr)|exact H|exact Hy].
+    + exists (core b'). split; [apply find_cfind; exact Fb'|exact Ab'].
+    + exact Hx1.
+    + rewrite N1, R1, ?HS. lia.
+Qed.
+
+Lemma apply_full : forall s a b s',
+    winv s -> is_act (cores s) a -> lvl_ge L_FULL a s ->
+    Z.of_N (napp _ _ s) = hgt (cores s) a - hgt (cores s) (root _ _ s) + 1 ->
+    apply pstate ccmd cexec cunexec s a b = Ok (s', true) -> lvl_ge L_FULL b s'.
+Proof.
+  intros s a b s' WI Ha Hl Hn H. pose proof WI as (W & _). pose proof H as H0. unfold apply in H.
+  destruct (N.eqb a b) eqn:Eab.
+  { inversion H; subst. apply N.eqb_eq in Eab. subst. exact Hl. }
+  destruct (bfind (blocks pstate ccmd s) a) as [bf|] eqn:Fa; [|discriminate].
+  destruct (bfind (blocks pstate ccmd s) b) as [bt|] eqn:Fb; [|discriminate].
+  destruct (is_failed ccmd bt); [discriminate|].
+  destruct (negb (Z.ltb (b_h ccmd bf) (b_h ccmd bt))); [discriminate|].
+  destruct (path_up ccmd (blocks pstate ccmd s) _ b) as [upl|] eqn:Eup; [|discriminate].
+  destruct (rev upl) as [|x r] eqn:Erev; [discriminate|].
+  destruct (bfind (blocks pstate ccmd s) x) as [bx|] eqn:Fx; [|discriminate].
+  destruct (N.eqb (b_par ccmd bx) a) eqn:Epx; [|discriminate]. apply N.eqb_eq in Epx.
+  assert (Hne : upl <> []) by (intro; subst upl; discriminate).
+  assert (Hlast : last upl b = x) by (rewrite <- (rev_involutive upl), Erev; cbn [rev]; apply last_last).
+  destruct (path_up_linked s _ b upl a Eup (fun _ _ _ _ _ => I)) as [L Lb].
+  { exists bx. rewrite Hlast. split; assumption. }
+  { exact Hne. }
+  rewrite Erev in L, Lb.
+  eapply (ap_full _ _ _ _ a WI Ha Hl Hn L H). rewrite <- Lb.
+  clear. generalize x. induction r as [|y r IH]; intros x0; [left; reflexivity|]. right. apply IH.
+Qed.
+
+Lemma uw_stop : forall fuel s cur to pred s' w,
+    unapplyWhile pstate ccmd cunexec fuel s cur to pred = Ok (s', w) ->
+    w = to \/ exists bw, bfind (blocks _ _ s') w = Some bw /\ pred bw = false.
+Proof.
+  induction fuel as [|f IH]; intros s cur to pred s' w H; cbn in H.
+  - destruct (N.eqb cur to); [|discriminate]. inversion H. left. reflexivity.
+  - destruct (N.eqb cur to); [inversion H; left; reflexivity|].
+    destruct (bfind (blocks pstate ccmd s) cur) as [bc|] eqn:Fc; [|discriminate].
+    destruct (bfind (blocks pstate ccmd s) to) as [bt|]; [|discriminate].
+    destruct (Z.leb (b_h ccmd bc) (b_h ccmd bt)); [discriminate|].
+    destruct (negb (pred bc)) eqn:Hp.
+    { inversion H; subst. right. exists bc. split; [exact Fc|]. apply negb_true_iff in Hp. exact Hp. }
+    dbind H. eapply IH. exact H.
+Qed.
+
+(** every block reached from a fully valid tip by parent pointers is at the fully-valid level *)
+Lemma chain_lvl : forall s, quiet s -> scoh s -> lvl_ge L_FULL (tip _ _ s) s ->
+    forall k, lvl_ge L_FULL (up (cores s) k (tip _ _ s)) s.
+Proof.
+  intros s Q C T k. induction k as [|k IH]; [exact T|]. rewrite up_succ_r.
+  destruct IH as (b & Fb & Hl). unfold parent. rewrite (find_cfind _ _ _ Fb). change (e_par (core b)) with (b_par ccmd b).
+  destruct (N.eq_dec (up (cores s) k (tip _ _ s)) (root _ _ s)) as [Heq|Hne].
+  - destruct Q as (W & _). destruct (wf_act_closed _ W) as (_ & Pr & _). rewrite Heq in Fb. rewrite (Pr _ Fb), <- Heq.
+    exists b. rewrite Heq. split; [exact Fb|exact Hl].
+  - pose proof (chain_up_active s Q (S k)) as Ha. rewrite up_succ_r in Ha. unfold parent in Ha. rewrite (find_cfind _ _ _ Fb) in Ha.
+    change (e_par (core b)) with (b_par ccmd b) in Ha. destruct (is_act_find _ _ Ha) as (pb & Fpb & _).
+    destruct C as (_ & _ & _ & C2 & _). specialize (C2 _ _ _ Fb Hne Fpb). exists pb. split; [exact Fpb|lia].
+Qed.
